@@ -359,16 +359,20 @@ pub fn c14(cx: &Cx) -> i32 {
     // ---- ES-strip-coverage + mutation confinement: the attribute-path wrappers
     let wrappers: Vec<std::rc::Rc<crate::index::FnDef>> = ix.fns.values().flatten().filter(|f| { let s = sig_text(f); (s.contains("&mutItemStruct") || s.contains("&mutItemEnum")) && s.contains("->Result<TokenStream>") }).cloned().collect();
     rep.check(wrappers.len() == 2, "ES-strip-coverage", "wrappers", "two-wrappers", &format!("expected the struct and the enum wrapper taking the item mutably, found {}", wrappers.len()), "item_type.rs", json!({}));
-    let remove = find_fn(ix, &|f| f.self_ty.is_none() && sig_text(f).contains("&mutVec<Attribute>"));
-    if let Some(rm) = &remove {
-        // remove_attrs retains exactly the attributes the predicate does not match
-        let ev = mk_ev(ix);
-        let outs = ev.call_fn(St::new(), rm, None, vec![sym("Vec<Attribute>", "attrs"), sym("HelperAttributeKinds", "kinds")]);
-        let ok = outs.len() == 1 && outs[0].0.events.iter().any(|e| matches!(e, Event::Note(n) if n.starts_with("mutcall $attrs.retain(")));
-        let src = rm.block.to_token_stream().to_string().replace(' ', "");
-        let neg = src.contains("retain(|attr|!kinds.") || src.contains("|!kinds.");
-        rep.check(ok && neg, "ES-strip-coverage", &rm.qual, "retain-not-matching", "attribute removal is not `retain the attributes the predicate does not match`", &site(rm), json!({}));
-    } else { rep.fail("unanalysable", "remove_attrs", "not-found", "attribute removal helper not found", "item_type.rs", json!({})); }
+    // the removal helper: the one function (free, or a method of the helper-attribute set) taking `&mut Vec<Attribute>`
+    let remove = find_fn(ix, &|f| sig_text(f).contains("&mutVec<Attribute>"));
+    let is_match = find_fn(ix, &|f| f.self_ty.as_deref() == Some("HelperAttributeKinds") && sig_text(f).contains("&Attribute") && sig_text(f).ends_with("->bool"));
+    if let (Some(rm), Some(im)) = (&remove, &is_match) {
+        // it retains exactly the attributes the strip predicate does not match
+        let mut ev = mk_ev(ix);
+        ev.stops.push((im.qual.clone(), "atom"));
+        let method = rm.sig.receiver().is_some();
+        let outs = if method { ev.call_fn(St::new(), rm, Some(sym("HelperAttributeKinds", "kinds")), vec![sym("Vec<Attribute>", "attrs")]) } else { ev.call_fn(St::new(), rm, None, vec![sym("Vec<Attribute>", "attrs"), sym("HelperAttributeKinds", "kinds")]) };
+        let pred = im.sig.ident.to_string();
+        let ok = outs.len() == 1 && outs[0].0.events.iter().any(|e| matches!(e, Event::Note(n) if n.starts_with("mutcall $attrs.retain(") && n.contains(&format!("retain-not {pred}(")) && n.contains("attrs[*]")));
+        rep.check(ok, "ES-strip-coverage", &rm.qual, "retain-not-matching", "attribute removal is not `retain the attributes the predicate does not match`", &site(rm), json!({"notes": outs.first().map(|o| notes(&o.0)).unwrap_or_default()}));
+        rep.unanalysable(&rm.qual, &ev.unsupported.borrow());
+    } else { rep.fail("unanalysable", "remove_attrs", "not-found", "attribute removal helper (a function taking `&mut Vec<Attribute>`) or the strip predicate (&Attribute) -> bool not found", "item_type.rs", json!({})); }
     for w in &wrappers {
         let is_enum = sig_text(w).contains("ItemEnum");
         let mut ev = mk_ev(ix);
@@ -383,11 +387,11 @@ pub fn c14(cx: &Cx) -> i32 {
             rep.check(ok, "ES-strip-coverage", &w.qual, "places", &format!("helper attributes are removed from {places:?}, expected exactly {want:?} (the item, its variants, their fields)"), &site(w), json!({}));
             // every removal uses the very helper-attribute set the core filled in (not a copy with a flag changed)
             let core_kinds = match fl { Flow::Val(v) | Flow::Ret(v) => { let mut k = None; v.any(&|x| { if let Val::Opaque { deps, .. } = x { if deps.len() == 3 { KINDS.with(|c| *c.borrow_mut() = Some(deps[2].short())); } } false }); if let Some(x) = KINDS.with(|c| c.borrow_mut().take()) { k = Some(x); } k } _ => None };
-            let rm_kinds: Vec<String> = st.events.iter().filter_map(|e| if let Event::Push { args, .. } = e { args.get(1).cloned() } else { None }).collect();
+            let rm_kinds: Vec<String> = st.events.iter().filter_map(|e| if let Event::Push { args, recv, .. } = e { args.get(1).cloned().or(if recv.is_empty() { None } else { Some(recv.clone()) }) } else { None }).collect();
             let same = core_kinds.is_some() && rm_kinds.iter().all(|k| Some(k) == core_kinds.as_ref());
             rep.check(same, "ES-strip-coverage", &w.qual, "same-kinds", &format!("attributes are removed with a different helper-attribute set than the one derivation used (removal: {:?}, derivation: {:?}): what is parsed and what is stripped no longer agree", rm_kinds.first(), core_kinds), &site(w), json!({}));
             // any other mutation of the item
-            let other_mut: Vec<String> = notes(st).into_iter().filter(|n| (n.starts_with("mutcall $item") || n.starts_with("field-assign item"))).collect();
+            let other_mut: Vec<String> = notes(st).into_iter().filter(|n| n.starts_with("mutcall $item") || n.starts_with("field-assign item")).collect();
             rep.check(other_mut.is_empty(), "MR-mutation-confinement", &w.qual, "other-mutation", &format!("the item is mutated beyond removing helper attributes: {other_mut:?}"), &site(w), json!({}));
             // the wrapper returns the core's result unchanged
             let v = match fl { Flow::Val(v) | Flow::Ret(v) => v.clone(), _ => Val::Unit };
@@ -399,34 +403,69 @@ pub fn c14(cx: &Cx) -> i32 {
         if let Some(f) = ix.get_fn(&q) { rep.check(!sig_text(&f).contains("&mutItem"), "MR-mutation-confinement", &q, "shared-ref", "a core takes the item by mutable reference", &site(&f), json!({})); }
     }
     // ---- ES-entry-emit: `build` emits the item first, then the generated tokens or the compile error
+    let is_cerr = |v: &Val| v.any(&|y| matches!(y, Val::Opaque { what, deps } if what == ".to_compile_error" && deps.iter().any(|d| d.any(&|z| matches!(z, Val::Opaque { what, .. } if what == "err-of") || matches!(z, Val::Sym { path, .. } if path.ends_with(".Err") || path.ends_with(".err"))))));
     if let Some(b) = find_fn(ix, &|f| f.self_ty.is_none() && f.attrs.is_empty() && f.sig.inputs.len() == 2 && f.sig.inputs.iter().all(|i| matches!(i, syn::FnArg::Typed(t) if crate::index::ty_str(&t.ty) == "TokenStream")) && sig_text(f).ends_with("->Result<TokenStream>")) {
         let mut ev = mk_ev(ix);
-        for c in cg.edges.get(&b.qual).cloned().unwrap_or_default() { if let Some(f) = ix.get_fn(&c) { if sig_text(&f).contains("->Result<TokenStream>") && c != b.qual { ev.stops.push((c.clone(), "opaque")); } } }
+        let mut builders = Vec::new();
+        for c in cg.edges.get(&b.qual).cloned().unwrap_or_default() { if let Some(f) = ix.get_fn(&c) { if sig_text(&f).contains("->Result<TokenStream>") && c != b.qual { ev.stops.push((c.clone(), "ret")); builders.push(c.clone()); } } }
         let outs = ev.call_fn(St::new(), &b, None, vec![sym("TokenStream", "attr"), sym("TokenStream", "item")]);
         rep.unanalysable(&b.qual, &ev.unsupported.borrow());
         let mut ok_paths = 0;
+        let (mut seen_ok, mut seen_err) = (false, false);
         for (st, fl) in &outs {
             let v = match fl { Flow::Val(v) | Flow::Ret(v) => v, _ => continue };
             match v {
                 Val::Enum { var, args, .. } if var == "Ok" => {
                     ok_paths += 1;
-                    let good = match args.first() { Some(Val::Tmpl(t)) => { let tk = t.tokens.replace(' ', ""); tk.starts_with("#item") && t.holes.iter().any(|(n, hv)| n == "item" && hv.any(&|y| matches!(y, Val::Sym { path, .. } if path == "item"))) && t.holes.iter().any(|(n, hv)| n != "item" && hv.any(&|y| matches!(y, Val::Opaque { what, .. } if what == ".unwrap_or_else"))) } _ => false };
+                    // did the builder succeed on this path?
+                    let built = st.cond.iter().find(|(a, _)| builders.iter().any(|bq| a.contains(&format!("{bq}#"))) && (a.starts_with("ok(") || a.ends_with(" is Ok") || a.ends_with(" is Err"))).map(|(a, b)| if a.ends_with(" is Err") { !*b } else { *b });
+                    let good = match args.first() {
+                        Some(Val::Tmpl(t)) => {
+                            let tk = t.tokens.replace(' ', "");
+                            let item_first = tk.starts_with("#item") && t.holes.iter().any(|(n, hv)| n == "item" && hv.any(&|y| matches!(y, Val::Sym { path, .. } if path == "item")));
+                            let other: Vec<&Val> = t.holes.iter().filter(|(n, _)| n != "item").map(|(_, v)| v).collect();
+                            let gen_ok = other.len() == 1 && match built {
+                                Some(true) => { seen_ok = true; matches!(other[0], Val::Sym { path, .. } if builders.iter().any(|bq| path.starts_with(&format!("{bq}#")))) }
+                                Some(false) => { seen_err = true; is_cerr(other[0]) }
+                                None => false,
+                            };
+                            item_first && tk.matches('#').count() == 2 && gen_ok
+                        }
+                        _ => false,
+                    };
                     rep.check(good, "ES-entry-emit", &b.qual, "item-then-tokens", &format!("the expansion is not `the (parsed) item, then the generated tokens or their compile error`: {}", v.short().chars().take(200).collect::<String>()), &site(&b), json!({"path": cond_str(&st.cond).chars().take(200).collect::<String>()}));
                 }
                 _ => {}
             }
         }
         rep.floor("successful paths of the attribute entry's build", ok_paths, 3);
-        // the error arm of unwrap_or_else turns the error into tokens
-        let src = b.block.to_token_stream().to_string().replace(' ', "");
-        rep.check(src.contains("unwrap_or_else(|e|e.to_compile_error())"), "ES-entry-emit", &b.qual, "error-to-tokens", "a builder error is not turned into a compile_error next to the item", &site(&b), json!({}));
+        rep.check(seen_ok && seen_err, "ES-entry-emit", &b.qual, "error-to-tokens", "a builder error is not turned into a compile_error next to the item (both outcomes of the builder must be seen)", &site(&b), json!({"ok seen": seen_ok, "error seen": seen_err}));
+        // entry point: when `build` fails (the item could not be parsed) the original item tokens are returned with the error appended
+        for e in crate::roles::entry_points(ix) {
+            if !e.attrs.iter().any(|a| a == "proc_macro_attribute") { continue; }
+            let mut ev = mk_ev(ix);
+            ev.stops.push((b.qual.clone(), "ret"));
+            let outs = ev.call_fn(St::new(), &e, None, vec![sym("TokenStream", "attr"), sym("TokenStream", "item")]);
+            rep.unanalysable(&e.qual, &ev.unsupported.borrow());
+            let (mut ok_seen, mut err_good, mut err_seen) = (false, true, false);
+            for (st, fl) in &outs {
+                let v = match fl { Flow::Val(v) | Flow::Ret(v) => v, _ => continue };
+                let built = st.cond.iter().find(|(a, _)| a.contains(&format!("{}#", b.qual))).map(|(a, bb)| if a.ends_with(" is Err") { !*bb } else { *bb });
+                match built {
+                    Some(true) => { ok_seen = true; }
+                    Some(false) => {
+                        err_seen = true;
+                        // idiom 1: `item.extend(e.to_compile_error()); item`   idiom 2: `quote!(#item #e)`
+                        let ext = notes(st).iter().any(|n| n.replace(' ', "").starts_with("mutcall$item.extend(") && n.contains("to_compile_error")) && v.any(&|y| matches!(y, Val::Sym { path, .. } if path == "item"));
+                        let tm = v.any(&|y| matches!(y, Val::Tmpl(t) if t.tokens.replace(' ', "").starts_with("#item") && t.tokens.matches('#').count() == 2 && t.holes.iter().any(|(n, hv)| n == "item" && hv.any(&|z| matches!(z, Val::Sym { path, .. } if path == "item"))) && t.holes.iter().any(|(n, hv)| n != "item" && is_cerr(hv))));
+                        if !(ext || tm) { err_good = false; }
+                    }
+                    None => {}
+                }
+            }
+            rep.check(ok_seen && err_seen && err_good, "ES-entry-emit", &e.qual, "parse-error-keeps-item", "when the item cannot be processed the original tokens are not re-emitted with the error appended", &site(&e), json!({"ok path seen": ok_seen, "error path seen": err_seen}));
+        }
     } else { rep.fail("unanalysable", "build", "not-found", "the attribute entry's build function not found", "lib.rs", json!({})); }
-    // entry point: on a parse error the original item tokens are returned with the error appended
-    for e in crate::roles::entry_points(ix) {
-        if !e.attrs.iter().any(|a| a == "proc_macro_attribute") { continue; }
-        let src = e.block.to_token_stream().to_string().replace(' ', "");
-        rep.check(src.contains("item.extend(e.to_compile_error());item"), "ES-entry-emit", &e.qual, "parse-error-keeps-item", "when the item cannot be processed the original tokens are not re-emitted with the error appended", &site(&e), json!({}));
-    }
     rep.assumptions = vec!["`ToTokens for Item*` re-emits the parsed item faithfully (syn, trusted)".into(), "the cores and the impl builder take the item by shared reference, so only the two wrappers can change it (type-enforced)".into()];
     rep.finish("other", "static analysis: the strip predicate is extracted as a function of (attribute name, derived set) and compared with the documentation's assignment for all 128 sets of derived traits (single-identifier names only; never a foreign name), and with the parse gate; the two wrappers remove attributes from exactly the item, its variants and their fields and mutate nothing else; `build` emits the item before the generated tokens or the compile error, and keeps the original tokens on a parse error", "rule instances = (rule, attribute name x derived set / wrapper / entry)")
 }
